@@ -77,7 +77,8 @@ type migCase struct {
 var migCache = map[string]*migCase{}
 
 func compileKernel(files []string, tl2wl string) (*pure.Kernel, error) {
-	opts := pure.OptionsKernel{TypesWhiteList: "*", TL2WhiteList: tl2wl, ErrorWriter: &bytes.Buffer{}}
+	// InstantiateConstants as the Go generator sets it: `tuple int 3` / `[3]int32` are fixed-size instances
+	opts := pure.OptionsKernel{TypesWhiteList: "*", TL2WhiteList: tl2wl, ErrorWriter: &bytes.Buffer{}, InstantiateConstants: true}
 	k := pure.NewKernel(&opts)
 	for _, f := range files {
 		var err error
@@ -243,7 +244,7 @@ func opMigrate(schemaHex, wlHex string) string {
 }
 
 func writeBoth(ins pure.TypeInstance, term *onthefly.VerifSx) (string, string, error) {
-	v, err := onthefly.VerifBuild(ins, term)
+	v, err := onthefly.VerifBuildTop(ins, term)
 	if err != nil {
 		return "", "", err
 	}
@@ -280,15 +281,15 @@ func opMig(args []string) string {
 	if err != nil {
 		return "err shape1"
 	}
+	b2, j2, err := writeBoth(i2, term)
+	if err != nil && err != onthefly.ErrVerifAbsent {
+		return "err shape2" // the value of the original type is not a value of the migrated type
+	}
 	if args[6] != "1" {
 		return "ok " + b1 + " " + j1 + " skip"
 	}
-	b2, j2, err := writeBoth(i2, term)
 	if err == onthefly.ErrVerifAbsent {
 		return "ok " + b1 + " " + j1 + " not-full"
-	}
-	if err != nil {
-		return "err shape2"
 	}
 	if os.Getenv("VERIF_DEBUG") != "" {
 		fmt.Fprintf(os.Stderr, "k1: %s %s\nk2: %s %s\n", b1, j1, b2, j2)
